@@ -36,6 +36,8 @@ def use_repo():
         sys.path.remove(REPO)
     sys.path.insert(0, REPO)
     os.environ.setdefault('HSZINC_VERIF', '1')
+    import warnings
+    warnings.simplefilter('ignore')      # Version.nearest() warns about unofficial versions
     import hszinc  # noqa
     here = os.path.realpath(os.path.dirname(os.path.dirname(hszinc.__file__)))
     if here != os.path.realpath(REPO):
